@@ -122,8 +122,30 @@ class IpRunner(Base):
     async def deliver(self, k):
         if not self.open or k >= len(self.frames):
             return
+        nxt = sum(1 for e in self.dec_log if e[1])
+        if k == nxt and self.rng.random() < 0.5:
+            return await self.burst(k)
         got = self._feed(self.frames[k])
         self.log("deliver", k=k, ok=got > 0)
+
+    async def burst(self, k):
+        """Honest delivery of the genuine frames k.. as a TCP stream cut at arbitrary points: every plaintext the
+        controller accepts is logged with the counter it was accepted under (AEAD boundary)."""
+        m = self.rng.randrange(1, 4)
+        frames = self.frames[k:k + m]
+        stream = b"".join(frames)
+        cuts = sorted(set(self.rng.randrange(1, len(stream)) for _ in range(self.rng.randrange(0, 4)))) if len(stream) > 1 else []
+        pts = [0, *cuts, len(stream)]
+        for a, b in zip(pts, pts[1:]):
+            if not self.open:
+                break
+            before = len(self.dec_log)
+            self._feed(stream[a:b])
+            for ctr, ok in self.dec_log[before:]:
+                if ok:
+                    self.log("deliver", k=ctr, ok=True)
+                else:
+                    self.log("corrupt", ok=False)
 
     async def corrupt(self):
         if not self.open:
